@@ -241,6 +241,9 @@ func (e *Engine) intrinsic(st *State, fr *Frame, fn *ssa.Function, args []Value,
 			panic(unsupported("verifZoneParams without verifZoneAt"))
 		}
 		return retExit(st, TupleV{e.zv.O1, e.zv.O2, e.zv.Tau}), true
+	case "verifLazySpawn":
+		e.lazySpawn = true
+		return retExit(st, nil), true
 	case "verifTimedSleeps":
 		e.timedSleeps = true
 		e.stubsUsed["time.Sleep in goroutines: parked on a timer (concrete durations), woken in time order when the main thread blocks"] = true
